@@ -67,6 +67,7 @@ def gen_cases(tier):
     for ns in (None, "a::b", "::a::b", "a", "a::b::c_d"):
         for std in stds[:1] if tier == "quick" else stds:
             yield {"kind": "import", "ns": ns, "std": std}
+    yield {"kind": "digit-names"}
 
 
 UNCHECKED = r'''
@@ -147,7 +148,9 @@ def ir_constants(ir, ns):
                         out.append("static_assert(static_cast<%s>(%s%s::%s()) == %s, \"%s::%s\");" % (cmp_t, prefix, name, cpp, lit, name, cpp))
                     elif ty.which_type == "boolean" and ty.boolean.has_field("value"):
                         out.append("static_assert(%s%s::%s() == %s, \"%s::%s\");" % (prefix, name, cpp, "true" if ty.boolean.value else "false", name, cpp))
-            if t.has_field("enumeration"):
+            has_case = any(a.name.text == "enum_case" for a in list(t.attribute) + list(mod.attribute)) or any(
+                a.name.text == "enum_case" for v in (t.enumeration.value if t.has_field("enumeration") else []) for a in v.attribute)
+            if t.has_field("enumeration") and not has_case:       # spellings under enum_case are C19's subject
                 for v in t.enumeration.value:
                     val = int(v.value.type.integer.modular_value) if v.value.type.which_type == "integer" else None
                     if val is None:
@@ -300,6 +303,20 @@ def check_case(case):
             if status == "ok":
                 nt.append(label)
         return {"viol": viol, "n": len(case["vectors"]), "nt": nt, "stats": stats}
+    if k == "digit-names":
+        viol, nt = [], []
+        for a, b in (("link_v1.emb", "link_v2.emb"), ("p1/x.emb", "p2/x.emb"), ("m_1_0.emb", "m_10.emb")):
+            imp = '[$default byte_order: "LittleEndian"]\n[(cpp) namespace: "v1"]\nstruct Old:\n  0 [+1]  UInt  a\n'
+            main = ('import "%s" as prev\n[$default byte_order: "LittleEndian"]\n[(cpp) namespace: "v2"]\n'
+                    "struct New:\n  0 [+1]  prev.Old  old\n  1 [+1]  UInt  b\n") % a
+            drv = ("#include \"prog.emb.h\"\nint main() { unsigned char x[4] = {0}; auto v = ::v2::MakeNewView(x, sizeof x); (void)v.Ok();"
+                   " (void)v.old().a().Read(); return 0; }\n")
+            label = "digit-names %s imports %s" % (b, a)
+            v, status = compile_only({b: main, a: imp}, b, lambda ir: drv, "c++14", True, "g++", label, {"main": main, "imp": imp})
+            viol.extend(v)
+            if status == "ok":
+                nt.append(label)
+        return {"viol": viol, "n": 3, "nt": nt}
     if k == "import":
         ns = case["ns"]
         imp = ('[$default byte_order: "LittleEndian"]\n' + ('[(cpp) namespace: "x::y"]\n' if ns else "") +
